@@ -372,7 +372,7 @@ pub fn run(run: &mut Run) {
         "OTP's default tick interval net_ticktime/4 = 15 s; virtual time moves only when the script advances it".into(),
         "process death is observed through the registry before the script starts".into(),
     ];
-    run.prop("inbound-scripts", strategy, run.tier.pick(1200, 50_000), oracle);
+    run.prop("inbound-scripts", strategy, run.tier.pick(2500, 100_000), oracle);
 }
 
 pub fn replays() -> Vec<ReplayEntry> {
